@@ -153,6 +153,17 @@ class Pins:
                             key=f"input-driven:{what}")
 
 
+def mock_reg(width, access, kind=None):
+    """Register stubs as user code may write them: a plain component, one whose instances compare
+    and hash by value (two registers of the same shape are 'equal'), or one that is falsy
+    (defines __len__, e.g. 'number of fields', and has none)."""
+    if kind == "valueq":
+        return ValueEqReg(width, access)
+    if kind == "falsy":
+        return FalsyReg(width, access)
+    return MockReg(width, access)
+
+
 class MockReg(wiring.Component):
     """A bare `element` port: the register back-end is an agent of the world."""
     def __init__(self, width, access):
@@ -161,3 +172,20 @@ class MockReg(wiring.Component):
 
     def elaborate(self, platform):
         return Module()
+
+
+class ValueEqReg(MockReg):
+    def __init__(self, width, access):
+        super().__init__(width, access)
+        self._verif_key = (width, access)
+
+    def __eq__(self, other):
+        return isinstance(other, ValueEqReg) and other._verif_key == self._verif_key
+
+    def __hash__(self):
+        return hash(self._verif_key)
+
+
+class FalsyReg(MockReg):
+    def __len__(self):
+        return 0
